@@ -351,6 +351,29 @@ def cres(r):
     return "(RDec %d %s)" % (r[1], cres(r[2]))
 
 
+def unfold_real(x, k, stop_class, num):
+    """What can be read from the real object x down to depth k, as a Coq `tree` term (the theorems' unfold).
+    num: id -> number of the object in the accompanying description (used for classes that are not entered)."""
+    kd = kind_of(x)
+    if kd is None:
+        if isinstance(x, type):
+            return "(TB %d)" % BTYPES.index(x)
+        z = atom_id(x)
+        return "(TA (%d))" % z if z < 0 else "(TA %d)" % z
+    if stop_class and kd == K_CLASS:
+        return "(TL %d)" % num[id(x)]
+    if k == 0:
+        return "TCut"
+    c = obj_cls(x, kd)
+    if c is None:
+        ct = unfold_real(type(x), k - 1, stop_class, num)
+    else:
+        ct = "(TA %d)" % c[1] if c[0] == "A" else "(TB %d)" % c[1]
+    items = [unfold_real(v, k - 1, stop_class, num) for v in obj_items(x, kd)]
+    attrs = ["TP %d %s" % (n, unfold_real(v, k - 1, stop_class, num)) for n, v in obj_attrs(x, kd)]
+    return "(TN %d %s [%s] [%s])" % (kd, ct, ";".join(items), ";".join(attrs))
+
+
 # ------------------------------------------------------------------------------------------------
 # functions for the toolbox part: module level, so that aliases pickle by reference (c16.fn2 ...)
 # ------------------------------------------------------------------------------------------------
@@ -1010,6 +1033,16 @@ def main(run):
                                              ";".join(cval(v) for v in h0[1]), ";\n ".join(steps)))
         cases.append(case)
         run.note_case(case, nontrivial, sample=case if idx % 41 == 0 else None)
+        # the theorems' vocabulary on the real objects: unfold of an original and of its first clone
+        for x, c, how in pairs[:1]:
+            objs2, rv2, py2 = describe([x, c])
+            num = dict((id(o), n) for n, o in enumerate(py2))
+            hterm = "[%s]" % ";\n  ".join(cobj(o) for o in objs2)
+            for root, rvv, sc in ((x, rv2[0], True), (c, rv2[1], True), (c, rv2[1], False)):
+                terms.append("CUnfold %s %s 3 %s %s" % (hterm, cval(rvv), "true" if sc else "false", unfold_real(root, 3, sc, num)))
+                cu = dict(case, unfold=[how, sc])
+                cases.append(cu)
+                run.note_case(cu, True)
         # frame: destructive, so last
         for x, c, how in pairs:
             oracle_frame(dict(case, frame=how), x, c, how)
